@@ -9,8 +9,12 @@
    OptFails), under the invariant qok (a loop's min <= max, its group range = the number of groups of its body, a
    character set has at most four members, brackets satisfy the CodePointSet invariant, the body of a one-character
    loop is a one-instruction leaf — evaluated by the driver on every IR the implementation produces), which the
-   passes preserve, and under hypotheses on the text (text_ok: elements are code points; bytes and elements agree
-   below 128; a one-character step can be undone — all true of well-formed UTF-8, stated here as hypotheses).
+   passes preserve; relative to a set okp of well-formed positions of the text (character boundaries) among which
+   the node stays (al: every leaf started at such a position ends at one), and under hypotheses on the text at those
+   positions (text_ok: reading an element leads to a well-formed position; elements are code points; bytes and
+   elements agree below 128; a one-character step can be undone — all true of well-formed UTF-8 at character
+   boundaries, stated here as hypotheses; proved for the ASCII indexer on every byte string, where every position is
+   well-formed).
    Refinement of nodes gives equality of the leftmost search, also after the trailing Goal is stripped (ir_top);
    with the C02/C04 theorems (both interpreter models return exactly that search) this is the statement of C03:
    completely for the utf16 build of the crate (c03_optimize_sound_utf16_build), and for the default build up to the
@@ -24,95 +28,98 @@ From RV.Gen Require Import FoldTables.
 From RV.Proofs Require Import IndexerFacts OptTextAscii OptDD OptMono OptWalk OptRel OptDecat OptFails OptEmpties OptUnroll OptPromote OptBrackets OptTop.
 
 (* the relation is a congruence: the walk lifts a sound rewrite rule to a pass *)
-Theorem c03_walk_lifts_rewrite_rule : forall ix unicode utf16 h (func : bool -> node -> R action),
-  (forall lb n a, func lb n = Ok a -> PRel ix unicode utf16 h lb n (act_node a n)) ->
-  forall fuel n n', run_to_fixpoint func fuel n = Ok n' -> PRel ix unicode utf16 h false n n'.
+Theorem c03_walk_lifts_rewrite_rule : forall ix unicode utf16 h (okp : nat -> Prop) (func : bool -> node -> R action),
+  (forall lb n a, func lb n = Ok a -> PRel ix unicode utf16 h okp lb n (act_node a n)) ->
+  forall fuel n n', run_to_fixpoint func fuel n = Ok n' -> PRel ix unicode utf16 h okp false n n'.
 Proof. exact pass_sound. Qed.
 
-Theorem c03_decat_sound : forall ix unicode utf16 h fuel n n',
-  run_to_fixpoint decat fuel n = Ok n' -> qok n = true ->
-  ref ix unicode utf16 h true n n' /\ qok n' = true /\ ng n' = ng n.
-Proof. intros ix unicode utf16 h fuel n n' E. exact (decat_pass_sound ix unicode utf16 h fuel n n' E). Qed.
+(* what a pass is shown to establish: refinement, and the invariants kept *)
+Definition pass_ok ix unicode utf16 h (okp : nat -> Prop) (n n' : node) : Prop :=
+  qok n = true -> al ix unicode utf16 h okp n ->
+  ref ix unicode utf16 h okp true n n' /\ qok n' = true /\ al ix unicode utf16 h okp n' /\ ng n' = ng n.
 
-Theorem c03_unroll_loops_sound : forall ix unicode utf16 h fuel n n',
-  run_to_fixpoint unroll_loops fuel n = Ok n' -> qok n = true ->
-  ref ix unicode utf16 h true n n' /\ qok n' = true /\ ng n' = ng n.
-Proof. intros ix unicode utf16 h fuel n n' E. exact (unroll_pass_sound ix unicode utf16 h fuel n n' E). Qed.
+Theorem c03_decat_sound : forall ix unicode utf16 h (okp : nat -> Prop) fuel n n',
+  run_to_fixpoint decat fuel n = Ok n' -> pass_ok ix unicode utf16 h okp n n'.
+Proof. intros ix unicode utf16 h okp fuel n n' E. exact (decat_pass_sound ix unicode utf16 h okp fuel n n' E). Qed.
 
-Theorem c03_remove_empties_sound : forall ix unicode utf16 h fuel n n',
-  run_to_fixpoint remove_empties fuel n = Ok n' -> qok n = true ->
-  ref ix unicode utf16 h true n n' /\ qok n' = true /\ ng n' = ng n.
-Proof. intros ix unicode utf16 h fuel n n' E. exact (empties_pass_sound ix unicode utf16 h fuel n n' E). Qed.
+Theorem c03_unroll_loops_sound : forall ix unicode utf16 h (okp : nat -> Prop) fuel n n',
+  run_to_fixpoint unroll_loops fuel n = Ok n' -> pass_ok ix unicode utf16 h okp n n'.
+Proof. intros ix unicode utf16 h okp fuel n n' E. exact (unroll_pass_sound ix unicode utf16 h okp fuel n n' E). Qed.
 
-Theorem c03_propagate_early_fails_sound : forall ix unicode utf16 h,
-  (forall fwd p c p', cnext ix fwd h p = Ok (Some (c, p')) -> c <= CODE_POINT_MAX) ->
-  forall fuel n n', run_to_fixpoint propagate_early_fails fuel n = Ok n' -> qok n = true ->
-  ref ix unicode utf16 h true n n' /\ qok n' = true /\ ng n' = ng n.
-Proof. intros ix unicode utf16 h Hcp fuel n n' E. exact (fails_pass_sound ix unicode utf16 h Hcp fuel n n' E). Qed.
+Theorem c03_remove_empties_sound : forall ix unicode utf16 h (okp : nat -> Prop) fuel n n',
+  run_to_fixpoint remove_empties fuel n = Ok n' -> pass_ok ix unicode utf16 h okp n n'.
+Proof. intros ix unicode utf16 h okp fuel n n' E. exact (empties_pass_sound ix unicode utf16 h okp fuel n n' E). Qed.
 
-Theorem c03_promote_1char_loops_sound : forall ix unicode utf16 h,
-  (forall body fwd s q q', matches_exactly_one_char body = true ->
+Theorem c03_propagate_early_fails_sound : forall ix unicode utf16 h (okp : nat -> Prop),
+  (forall fwd p c p', okp p -> cnext ix fwd h p = Ok (Some (c, p')) -> c <= CODE_POINT_MAX) ->
+  forall fuel n n', run_to_fixpoint propagate_early_fails fuel n = Ok n' -> pass_ok ix unicode utf16 h okp n n'.
+Proof. intros ix unicode utf16 h okp Hcp fuel n n' E. exact (fails_pass_sound ix unicode utf16 h okp Hcp fuel n n' E). Qed.
+
+Theorem c03_promote_1char_loops_sound : forall ix unicode utf16 h (okp : nat -> Prop),
+  (forall body fwd s q q', matches_exactly_one_char body = true -> okp q ->
      single_step ix unicode h (negb fwd) body fwd = Some s -> s q = Some (Some q') -> step_inv ix h fwd q q' = true) ->
-  forall fuel n n', run_to_fixpoint promote_1char_loops fuel n = Ok n' -> qok n = true ->
-  ref ix unicode utf16 h true n n' /\ qok n' = true /\ ng n' = ng n.
-Proof. intros ix unicode utf16 h Hs fuel n n' E. exact (promote_pass_sound ix unicode utf16 h Hs fuel n n' E). Qed.
+  forall fuel n n', run_to_fixpoint promote_1char_loops fuel n = Ok n' -> pass_ok ix unicode utf16 h okp n n'.
+Proof. intros ix unicode utf16 h okp Hs fuel n n' E. exact (promote_pass_sound ix unicode utf16 h okp Hs fuel n n' E). Qed.
 
-Theorem c03_simplify_brackets_sound : forall ix unicode utf16 h,
-  text_ok ix unicode h ->
-  forall fuel n n', run_to_fixpoint simplify_brackets fuel n = Ok n' -> qok n = true ->
-  ref ix unicode utf16 h true n n' /\ qok n' = true /\ ng n' = ng n.
+Theorem c03_simplify_brackets_sound : forall ix unicode utf16 h (okp : nat -> Prop),
+  text_ok ix unicode h okp ->
+  forall fuel n n', run_to_fixpoint simplify_brackets fuel n = Ok n' -> pass_ok ix unicode utf16 h okp n n'.
 Proof.
-  intros ix unicode utf16 h (Hcp & Hb1 & Hb2 & _) fuel n n' E.
-  exact (brackets_pass_sound ix unicode utf16 h Hcp Hb1 Hb2 fuel n n' E).
+  intros ix unicode utf16 h okp (Hk1 & _ & Hcp & Hb1 & Hb2 & _) fuel n n' E.
+  exact (brackets_pass_sound ix unicode utf16 h okp Hk1 Hcp Hb1 Hb2 fuel n n' E).
 Qed.
 
-(* a refining node gives the same leftmost search, the trailing Goal stripped on both sides *)
-Theorem c03_refinement_preserves_search : forall ix unicode utf16 h n n',
-  ref ix unicode utf16 h true n n' ->
-  exists K, forall fuel ngroups tries p r, fuel_ok (fuel + K) ->
+(* a refining node gives the same leftmost search from a well-formed start, the trailing Goal stripped on both sides *)
+Theorem c03_refinement_preserves_search : forall ix unicode utf16 h (okp : nat -> Prop) n n',
+  text_ok ix unicode h okp -> ref ix unicode utf16 h okp true n n' ->
+  exists K, forall fuel ngroups tries p r, fuel_ok (fuel + K) -> okp p ->
     ir_search ix unicode utf16 h fuel (ir_top n) ngroups tries p = Some r ->
     ir_search ix unicode utf16 h (fuel + K) (ir_top n') ngroups tries p = Some r.
 Proof. exact top_search_ref. Qed.
 
 (* optimize() of the utf16 build (form_literal_bytes is compiled out): the search is unchanged *)
-Theorem c03_optimize_sound_utf16_build : forall ix unicode utf16 h,
-  text_ok ix unicode h ->
-  forall n n', optimize true n = Ok n' -> qok n = true ->
-  exists K, forall fuel ngroups tries p r, fuel_ok (fuel + K) ->
+Theorem c03_optimize_sound_utf16_build : forall ix unicode utf16 h (okp : nat -> Prop),
+  text_ok ix unicode h okp ->
+  forall n n', optimize true n = Ok n' -> qok n = true -> al ix unicode utf16 h okp n ->
+  exists K, forall fuel ngroups tries p r, fuel_ok (fuel + K) -> okp p ->
     ir_search ix unicode utf16 h fuel (ir_top n) ngroups tries p = Some r ->
     ir_search ix unicode utf16 h (fuel + K) (ir_top n') ngroups tries p = Some r.
 Proof.
-  intros ix unicode utf16 h Ht n n' E Hq.
-  destruct (optimize_sound_utf16_build ix unicode utf16 h Ht n n' E Hq) as [Hr _].
-  apply top_search_ref. exact Hr.
+  intros ix unicode utf16 h okp Ht n n' E Hq Ha.
+  destruct (optimize_sound_utf16_build ix unicode utf16 h okp Ht n n' E Hq Ha) as [Hr _].
+  apply top_search_ref; assumption.
 Qed.
 
 (* optimize() of the default build: what remains is the soundness of the single rewrites of form_literal_bytes *)
-Theorem c03_optimize_modulo_literal_bytes : forall ix unicode utf16 h,
-  (forall lb n a, form_literal_bytes lb n = Ok a -> PRel ix unicode utf16 h lb n (act_node a n)) ->
-  text_ok ix unicode h ->
-  forall u16 n n', optimize u16 n = Ok n' -> qok n = true ->
-  exists K, forall fuel ngroups tries p r, fuel_ok (fuel + K) ->
+Theorem c03_optimize_modulo_literal_bytes : forall ix unicode utf16 h (okp : nat -> Prop),
+  (forall lb n a, form_literal_bytes lb n = Ok a -> PRel ix unicode utf16 h okp lb n (act_node a n)) ->
+  text_ok ix unicode h okp ->
+  forall u16 n n', optimize u16 n = Ok n' -> qok n = true -> al ix unicode utf16 h okp n ->
+  exists K, forall fuel ngroups tries p r, fuel_ok (fuel + K) -> okp p ->
     ir_search ix unicode utf16 h fuel (ir_top n) ngroups tries p = Some r ->
     ir_search ix unicode utf16 h (fuel + K) (ir_top n') ngroups tries p = Some r.
 Proof.
-  intros ix unicode utf16 h H4 Ht u16 n n' E Hq.
-  destruct (optimize_sound_if ix unicode utf16 h H4 Ht u16 n n' E Hq) as [Hr _].
-  apply top_search_ref. exact Hr.
+  intros ix unicode utf16 h okp H4 Ht u16 n n' E Hq Ha.
+  destruct (optimize_sound_if ix unicode utf16 h okp H4 Ht u16 n n' E Hq Ha) as [Hr _].
+  apply top_search_ref; assumption.
 Qed.
 
-(* the text hypotheses hold of every byte string read through the ASCII indexer (the *_ascii entry points) ... *)
-Theorem c03_text_ok_ascii : forall h, bytes_ok h -> forall unicode, text_ok ascii_indexer unicode h.
+(* the text hypotheses hold of every byte string read through the ASCII indexer (the *_ascii entry points), every
+   position being well-formed, and every node stays among them ... *)
+Theorem c03_text_ok_ascii : forall h, bytes_ok h -> forall unicode, text_ok ascii_indexer unicode h (fun _ => True).
 Proof. exact text_ok_ascii. Qed.
 
-(* ... so there the statement needs no hypothesis on the text *)
+(* ... so there the statement needs no hypothesis on the text or the node beyond qok *)
 Theorem c03_optimize_sound_utf16_build_ascii : forall unicode utf16 h, bytes_ok h ->
   forall n n', optimize true n = Ok n' -> qok n = true ->
   exists K, forall fuel ngroups tries p r, fuel_ok (fuel + K) ->
     ir_search ascii_indexer unicode utf16 h fuel (ir_top n) ngroups tries p = Some r ->
     ir_search ascii_indexer unicode utf16 h (fuel + K) (ir_top n') ngroups tries p = Some r.
 Proof.
-  intros unicode utf16 h Hb. apply c03_optimize_sound_utf16_build. apply text_ok_ascii. exact Hb.
+  intros unicode utf16 h Hb n n' E Hq.
+  destruct (c03_optimize_sound_utf16_build ascii_indexer unicode utf16 h (fun _ => True) (text_ok_ascii h Hb unicode)
+              n n' E Hq (al_all_ascii h unicode utf16 n)) as [K HK].
+  exists K. intros fuel ngroups tries p r Hf Es. exact (HK fuel ngroups tries p r Hf I Es).
 Qed.
 
 (* Non-vacuity: (?:a{2,3}|)[xy](?:) — a loop that unroll_loops and promote_1char_loops rewrite, a bracket that
